@@ -83,8 +83,12 @@ def probes(case, layers, view, img):
         off, ln = (op[1], op[2]) if op[0] == "r" else (op[1] * cfg["lss"], op[2] * cfg["lss"])
         if ln and off % bs and (min(off + ln, size) - 1) // bs > off // bs:
             p["vhdx.read_starts_midblock_crosses_block"] = 1
-    for st in set(img.info["states"].values()):
+    for st in set(img.info["states"].values()) | {img.info["default_state"]}:
         p["vhdx.state_%d" % st] = 1
     if cfg["unknown_item"]:
         p["vhdx.unknown_user_metadata_item"] = 1
     return p
+
+
+def req_meta_bytes(cfg, img, off, ln):
+    return 16 * (ln // cfg["block"] + 2) + 64
